@@ -355,6 +355,7 @@ def register(reg):
     register_aabb(reg)
     register_view_angle(reg)
     register_bounded_footprint(reg)
+    register_union_all(reg)
 
 
 def _patch_make_geom():
@@ -2070,3 +2071,194 @@ def register_bounded_footprint(reg):
             properties=("C16",),
         )
     )
+
+
+# ===================================================================================================
+# Extension: PolygonalRegion.unionAll, PolylineRegion.unionAll / __add__ (n-ary unions)
+#
+# Oracle (property statement): a point clear of the operands' boundaries belongs to the union exactly when it belongs to
+# one of the operands, all three coordinates taken into account (planar regions keep their height); an operand list the
+# library does not accept is refused with an exception instead of being given a wrong set.
+
+UNIONALL_KINDS = ["polygonal", "nowhere", "footprint", "polyline"]
+
+
+def register_union_all(reg):
+    def mk_operand(I, kind, tag):
+        if kind == "nowhere":
+            return mk_special(I, "EmptyRegion")
+        return mk_other(I, kind, [], tag=tag)
+
+    # ---------------------------------------------------------------- PolygonalRegion.unionAll
+    def setup_pu(I, env):
+        eng = I.eng
+        n = 1 + eng.choose(2, "one or two further operands")
+        kinds = ["polygonal"] + [UNIONALL_KINDS[eng.choose(len(UNIONALL_KINDS), f"class of operand {i}")] for i in range(1, n + 1)]
+        order = eng.choose(2, "polygonal operand first / last")
+        ops = [mk_operand(I, k, f"r{i}") for i, k in enumerate(kinds)]
+        if order == 1:
+            ops, kinds = ops[::-1], kinds[::-1]
+        eng.input_syms.append(("kinds", C.Const(None), list(kinds)))
+        p = probe(I)
+        eng.assume(clear_of_boundaries(I, p, *ops))
+        for o, k in zip(ops, kinds):
+            if k == "polyline":  # adding a 1-dimensional set to a 2-dimensional one: every point of the line is a boundary point
+                eng.assume(sv_not(MS.gmem(o.fields["lineString"], p[0], p[1])))
+        env.vars.update(regions=PList(ops), buf=0, _ops=ops, _kinds=kinds, _p=p)
+
+    def post_pu(I, env, outcome):
+        eng = I.eng
+        oname = "regions.PolygonalRegion.unionAll"
+        ops, kinds, p = env.vars["_ops"], env.vars["_kinds"], env.vars["_p"]
+        tag = "[" + "+".join(sorted(set(kinds))) + "]"
+        if outcome[0] != "return":
+            return
+        res = outcome[1]
+        ok = isinstance(res, PObj)
+        eng.check(f"{oname}#ensures.returns_a_region", ok)
+        if not ok:
+            return
+        want = sv_or(*[mem3(I, o, p) for o in ops])
+        eng.check(f"{oname}#ensures.set_semantics{tag}", iff(mem3(I, res, p), want))
+        zs = [o.fields["z"] for o, k in zip(ops, kinds) if k == "polygonal"]
+        if is_a(I, res, "PolygonalRegion") and zs:
+            eng.check(f"{oname}#ensures.result_keeps_the_common_height_z", sv_and(*[compare("==", res.fields["z"], z) for z in zs]))
+
+    def replay_pu(inputs, clause):
+        R, Vector = _real_regions()
+        try:
+            kinds = list(_lit_list(inputs.get("kinds")))
+        except Exception:
+            kinds = ["polygonal", "polygonal"]
+        za = float(inputs.get("r0.z", inputs.get("r1.z", inputs.get("r2.z", 2.0))))
+        sq_ = lambda x0, y0, x1, y1: [(x0, y0), (x1, y0), (x1, y1), (x0, y1)]
+        shapes = [sq_(0, 0, 4, 4), sq_(2, 2, 6, 6), sq_(5, 0, 7, 1)]
+        for z0, step in ((za, 0.0), (2.0, 0.0), (za, 1.5)):  # common height / different heights (refused, or a correct union)
+            ops = []
+            for i, k in enumerate(kinds):
+                if k == "polygonal":
+                    ops.append(R.PolygonalRegion(shapes[i % 3], z=z0 + i * step))
+                elif k == "footprint":
+                    ops.append(R.PolygonalRegion(shapes[i % 3]).footprint)
+                elif k == "polyline":
+                    ops.append(R.PolylineRegion([(-1, 3), (8, 3)]))
+                else:
+                    ops.append(R.nowhere)
+            try:
+                res = R.PolygonalRegion.unionAll(ops)
+            except (TypeError, ValueError):
+                continue
+            desc = ", ".join(f"{type(o).__name__}" + (f"(z={o.z})" if isinstance(o, R.PolygonalRegion) else "") for o in ops)
+            for x, y in ((1, 1), (3, 3.5), (5, 5), (6, 0.5), (9, 9), (3, 1), (5.5, 2.5)):
+                for z in sorted({z0, 0.0, z0 + 1.5, z0 + 3.0}):
+                    pt = Vector(x, y, z)
+                    want = any(_member(R, o, pt) for o in ops)
+                    got = _member(R, res, pt)
+                    if got != want:
+                        return f"PolygonalRegion.unionAll([{desc}]) = {res!r}: point {tuple(pt)} is in {[type(o).__name__ for o in ops if _member(R, o, pt)] or 'no operand'} but {'in' if got else 'not in'} the union"
+        return None
+
+    reg.add(
+        C.Contract(
+            f"{RG}:PolygonalRegion.unionAll",
+            params=dict(regions=C.Const(None), buf=C.Const(0)),
+            setup=setup_pu,
+            post=post_pu,
+            raises=[C.Raises("TypeError", mode="may"), C.Raises("ValueError", mode="may")],
+            inline_all=True,
+            replay=replay_pu,
+            bounded=True,
+            note="bounded: 2..3 operands (a PolygonalRegion plus polygonal / nowhere / footprint / polyline operands, polygonal operand first or last), buf = 0",
+            properties=("C16",),
+        )
+    )
+
+    # ---------------------------------------------------------------- PolylineRegion.unionAll / __add__
+    def setup_lu(method):
+        def setup(I, env):
+            eng = I.eng
+            if method == "__add__":
+                kinds = ["polyline", ["polyline", "polygonal"][eng.choose(2, "class of other")]]
+            else:
+                n = eng.choose(3, "number of operands: 0 / 1 / 2")
+                kinds = ["polyline"] * n
+                if n == 2 and eng.choose(2, "second operand: polyline / polygonal") == 1:
+                    kinds[1] = "polygonal"
+            ops = []
+            for i, k in enumerate(kinds):
+                o = mk_other(I, k, [], tag=f"r{i}")
+                if k == "polyline" and eng.choose(2, f"r{i}: LineString / MultiLineString") == 1:
+                    o.fields["lineString"].fields["_kind"] = "MultiLineString"
+                    o.fields["lineString"].fields["geoms"] = PList([o.fields["lineString"]])
+                ops.append(o)
+            eng.input_syms.append(("kinds", C.Const(None), list(kinds)))
+            p = probe(I)
+            if method == "__add__":
+                env.vars.update(self=ops[0], other=ops[1])
+            else:
+                env.vars.update(regions=PList(ops))
+            env.vars.update(_ops=ops, _kinds=kinds, _p=p)
+
+        return setup
+
+    def post_lu(method):
+        oname = f"regions.PolylineRegion.{method}"
+
+        def post(I, env, outcome):
+            eng = I.eng
+            ops, kinds, p = env.vars["_ops"], env.vars["_kinds"], env.vars["_p"]
+            if outcome[0] == "raise":
+                eng.check(f"{oname}#raises.only_for_operands_that_are_not_polylines", any(k != "polyline" for k in kinds))
+                return
+            res = outcome[1]
+            if res is NotImplemented:
+                eng.check(f"{oname}#ensures.NotImplemented_only_for_operands_that_are_not_polylines", any(k != "polyline" for k in kinds))
+                return
+            ok = isinstance(res, PObj)
+            eng.check(f"{oname}#ensures.returns_a_region", ok)
+            if ok:
+                eng.check(f"{oname}#ensures.accepts_only_polylines", all(k == "polyline" for k in kinds))
+                eng.check(f"{oname}#ensures.set_semantics", iff(mem3(I, res, p), sv_or(*[mem3(I, o, p) for o in ops])))
+
+        return post
+
+    def replay_lu(method):
+        def replay(inputs, clause):
+            R, Vector = _real_regions()
+            A, B = R.PolylineRegion([(0, 0), (2, 0), (2, 2)]), R.PolylineRegion([(5, 5), (5, 7)])
+            M = A + B
+            C_ = R.PolylineRegion([(-3, 0), (-1, 0)])
+            cases = [("A + B", [A, B]), ("(A + B) + C", [M, C_]), ("C + (A + B)", [C_, M]), ("single", [A])]
+            if method == "unionAll":
+                try:
+                    res = R.PolylineRegion.unionAll([A, R.PolygonalRegion([(0, 0), (1, 0), (1, 1)])])  # refused with TypeError, or a correct union
+                    return f"PolylineRegion.unionAll([polyline, PolygonalRegion]) returned {res!r} instead of refusing the operand"
+                except TypeError:
+                    pass
+            for name, ops in cases:
+                if method == "__add__":
+                    if len(ops) != 2:
+                        continue
+                    res = ops[0] + ops[1]
+                else:
+                    res = R.PolylineRegion.unionAll(ops)
+                for x, y in ((1, 0), (2, 1), (5, 6), (-2, 0), (3, 3), (0, 1), (5, 8)):
+                    for z in (0.0, 1.0):
+                        pt = Vector(x, y, z)
+                        want = any(o.containsPoint(pt) for o in ops)
+                        if bool(res.containsPoint(pt)) != want:
+                            return f"PolylineRegion.{method} ({name}): point {tuple(pt)} {'is' if want else 'is not'} on an operand but containsPoint of the union says {not want}"
+            if method == "unionAll" and R.PolylineRegion.unionAll([]) is not R.nowhere:
+                return "PolylineRegion.unionAll([]) is not `nowhere`"
+            return None
+
+        return replay
+
+    reg.add(C.Contract(f"{RG}:PolylineRegion.unionAll", params=dict(regions=C.Const(None)), setup=setup_lu("unionAll"), post=post_lu("unionAll"), raises=[C.Raises("TypeError", mode="may")], inline_all=True, replay=replay_lu("unionAll"), bounded=True, note="bounded: 0..2 operands (LineString / MultiLineString polylines, or a non-polyline second operand)", properties=("C16",)))
+    reg.add(C.Contract(f"{RG}:PolylineRegion.__add__", params=dict(self=C.Const(None), other=C.Const(None)), setup=setup_lu("__add__"), post=post_lu("__add__"), inline_all=True, replay=replay_lu("__add__"), properties=("C16",)))
+
+
+def _lit_list(v):
+    import ast
+
+    return ast.literal_eval(v) if isinstance(v, str) else v
